@@ -47,8 +47,8 @@ RULE = (
     '(cycle, path, star, spider, Pruefer tree, K_{m,n}, two copies of a tree joined by an edge or through a middle node, the shape of '
     'the comment at ismags.py:872, disjoint unions of 2-3 small graphs, prism, wheel, cube, Petersen, complete graph), optionally with a '
     'few nodes/edges recoloured; host = the same structure re-keyed, or extended by extra nodes, or two copies (optionally bridged), '
-    'or one pair/colour perturbed, or a random graph.  lcs: pattern 1-7 nodes vs host 1-8 nodes, independent, or host = damaged '
-    'pattern, or small symmetric families.  Non-trivial: isomorphism cases with |I| >= 2 and |A| >= 2 (the symmetry reduction has '
+    'or one pair/colour perturbed, or a random graph.  lcs: pattern 1-7 nodes (cycles and prisms up to 9 and 8 nodes) vs host 1-9 nodes, '
+    'independent, or host = damaged pattern, or small symmetric families.  Non-trivial: isomorphism cases with |I| >= 2 and |A| >= 2 (the symmetry reduction has '
     'work to do); LCS cases whose maximum common size is smaller than the pattern (the shrinking search ran).')
 ASSUMPTIONS = [
     'graph = host, subgraph = pattern; yielded dicts map host node -> pattern node (docstrings, repair_graph.py)',
@@ -828,7 +828,7 @@ def _strategy_symmetric(tier):
 def _small_family(draw):
     kind = draw(st.sampled_from(['cycle', 'path', 'star', 'spider', 'tree', 'kmn', 'union', 'wheel', 'prism']))
     if kind == 'cycle':
-        return _cycle(draw(st.integers(4, 7)))
+        return _cycle(draw(st.sampled_from([4, 5, 6, 7, 8, 9, 9])))
     if kind == 'path':
         return _path(draw(st.integers(3, 7)))
     if kind == 'star':
@@ -849,7 +849,7 @@ def _small_family(draw):
         return _union([first, second])
     if kind == 'wheel':
         return _wheel(draw(st.integers(4, 6)))
-    return _prism(3)
+    return _prism(draw(st.sampled_from([3, 3, 4])))
 
 
 @st.composite
